@@ -51,17 +51,18 @@ class PestGrammarError(Exception):
 
     def _error_context(self, text: str, index: int) -> tuple[int, int, str, str, str]:
         lines = text.splitlines(keepends=True)
+        if not lines or lines[-1] != text.splitlines()[-1]:
+            # The text is empty or ends with a line break: its end is on a new line.
+            lines.append("")
+
         cumulative_length = 0
-        target_line_index = -1
+        target_line_index = len(lines) - 1
 
         for i, line in enumerate(lines):
             cumulative_length += len(line)
             if index < cumulative_length:
                 target_line_index = i
                 break
-
-        if target_line_index == -1:
-            raise ValueError("index is out of bounds for the given string")
 
         # Line number (1-based)
         line_number = target_line_index + 1
